@@ -217,7 +217,17 @@ func ReleaseConn(co *Conn) {
 // DNAME (and its signature) of an ancestor that redirects it, and then the
 // same for each CNAME or DNAME target in turn. Records of unrelated owners
 // are dropped.
-func answerChain(answer []dns.RR, qname string) []dns.RR {
+//
+// At each owner on the chain only what answers the question is kept: the
+// RRset of the asked type and the CNAME that leads on (RFC 1034 §4.3.2 step
+// 3a). Another RRset of that owner — its A when AAAA was asked — is not an
+// answer; left in place it would be validated, marked authentic and relayed
+// as the outcome of the question, telling the client the asked type is not
+// there without the NSEC/NSEC3 that has to prove it. With it gone the reply is
+// the NODATA it really is and goes through the denial checks. ANY and RRSIG
+// questions are answered by whatever the owner holds.
+func answerChain(answer []dns.RR, qname string, qtype uint16) []dns.RR {
+	anyType := qtype == dns.TypeANY || qtype == dns.TypeRRSIG
 	keep := make([]bool, len(answer))
 	kept := 0
 	cur := dns.CanonicalName(qname)
@@ -238,6 +248,9 @@ func answerChain(answer []dns.RR, qname string) []dns.RR {
 			}
 			switch {
 			case owner == cur:
+				if !anyType && covered != qtype && covered != dns.TypeCNAME {
+					continue
+				}
 				keep[i] = true
 				kept++
 				if cname, ok := rr.(*dns.CNAME); ok {
